@@ -151,7 +151,7 @@ __CPROVER_assigns()
 #ifdef VP_CANON_ABSTRACT
 nng_err nni_url_canonify_uri(char *out)
     /* clang-format off */
-__CPROVER_requires(__CPROVER_is_fresh(out, STR_ROOM(out)) && STR_ROOM(out) >= 1 && STR_ROOM(out) <= URL_HEAP_MAX)
+__CPROVER_requires(__CPROVER_is_fresh(out, URL_QCAP + 1))
 __CPROVER_requires(STR_TERMINATED_WITHIN(out, URL_QCAP, vp_c1))
 __CPROVER_assigns(__CPROVER_object_from(out), g_exit)
 __CPROVER_ensures(RV == NNG_OK || RV == NNG_EINVAL)
@@ -161,9 +161,9 @@ __CPROVER_ensures(STR_TERMINATED_WITHIN(out, URL_QCAP, vp_c2))
 #else
 nng_err nni_url_canonify_uri(char *out)
     /* clang-format off */
-__CPROVER_requires(__CPROVER_is_fresh(out, STR_ROOM(out)) && STR_ROOM(out) >= 1 && STR_ROOM(out) <= URL_HEAP_MAX)
+__CPROVER_requires(__CPROVER_is_fresh(out, URL_QCAP + 1))
 /* g_n := strlen(out) (defines the ghost, does not restrict the input) */
-__CPROVER_requires(g_n <= URL_QCAP && g_n < STR_ROOM(out) && out[g_n] == 0)
+__CPROVER_requires(g_n <= URL_QCAP && out[g_n] == 0)
 __CPROVER_requires(g_n == 0 || STR_BEFORE_END(out, g_n - 1, URL_QCAP, vp_c0))
 __CPROVER_assigns(__CPROVER_object_from(out), g_exit)
 __CPROVER_ensures(RV == NNG_OK || RV == NNG_EINVAL)
